@@ -25,6 +25,7 @@ from happysimulator.core.event import ProcessContinuation
 
 COMP = "PaxosNode"
 MSG = ["PaxosPrepare", "PaxosPromise", "PaxosNack", "PaxosAccept", "PaxosAccepted", "PaxosDecided"]
+FALSY = [0, "", False, 0.0, [], {}]  # at most one per case (0 == False == 0.0)
 HOPS_BUDGET = 6  # Prepare, Promise, Accept, Accepted, Decided + 1 spare
 
 
@@ -41,7 +42,7 @@ def gen_single(rng: random.Random, tier: str) -> dict:
             "retry_delay": retry_delay,
             "script": fault_free_script(rng, hi / 10, hi),
             "max_delay": hi,
-            "proposals": [{"node": rng.choice(names), "value": "v0", "at": 0.1}],
+            "proposals": [{"node": rng.choice(names), "value": rng.choice(["v0", "v0", "v0"] + FALSY), "at": 0.1}],
             "partitions": [],
             "gseed": rng.randrange(1 << 30),
             "end": 0.1 + 40 * hi + 1.0,
@@ -54,6 +55,9 @@ def gen_single(rng: random.Random, tier: str) -> dict:
     for i, p in enumerate(proposers):
         off = rng.choice([0.0, 0.0, rng.uniform(0, 0.05 * t), rng.uniform(0, 0.5 * t), rng.uniform(0, 3 * t)])
         proposals.append({"node": p, "value": f"v{i}-{p}", "at": round(0.1 + off, 6)})
+    if rng.random() < 0.35:
+        # one proposal carries a falsy value (legal client values; None is excluded: it is the "undecided" read-out)
+        rng.choice(proposals)["value"] = rng.choice(FALSY)
     if rng.random() < 0.15:
         # a client proposes again on a node that already proposed (new unique value)
         p = rng.choice(proposers)
@@ -79,7 +83,7 @@ class SingleMonitor:
         self.nodes = nodes
         self.net = net
         self.node_set = {id(n): n for n in nodes}
-        self.proposed: dict = {}  # value -> (time, node)
+        self.proposed: list = []  # values proposed so far (list: values may be unhashable / falsy; membership by ==)
         self.futures: list = []  # (node, value, future, [reported?])
         self.first: dict = {}  # node name -> (time, value)
         self.decided_global = None  # (time, node, value)
@@ -263,7 +267,7 @@ class SingleMonitor:
                     self.flag(
                         "validity",
                         self.diagnose_unproposed(n.name, v),
-                        f"{n.name} reports decided value {v!r} at t={now}; proposed so far: {sorted(map(str, self.proposed))}",
+                        f"{n.name} reports decided value {v!r} at t={now}; proposed so far: {[repr(x) for x in self.proposed]}",
                     )
                 g = self.decided_global
                 if g is None:
@@ -317,7 +321,8 @@ def run_single(case: dict) -> Result:
         node = by_name[p["node"]]
 
         def do(ev, node=node, p=p):
-            mon.proposed.setdefault(p["value"], (ev.time.to_seconds(), node.name))
+            if p["value"] not in mon.proposed:
+                mon.proposed.append(p["value"])
             fut = node.propose(p["value"])
             mon.futures.append((node, p["value"], fut, [False]))
             return node.start_phase1()
